@@ -125,7 +125,9 @@ Refused == [status |-> "EINVAL", size |-> 0, flags |-> {}, flags2 |-> {}, major 
    - VFS: refused with EINVAL while initialised; DESTROY clears `initialized`, and the next init starts from the options the
      first one stored (no_open / no_opendir and out_opts already narrowed), and re-initialises its backends. *)
 SecondSession(c1, res1, c2, destroyed) ==
-  IF c2.major # "eq" \/ ~res1.called THEN [r |-> ServerInit(c2).r, t |-> res1.t, want |-> {}, called |-> FALSE]
+  IF c2.major # "eq" THEN [r |-> ServerInit(c2).r, t |-> res1.t, want |-> {}, called |-> FALSE]
+  ELSE IF ~res1.called THEN   \* the first INIT never reached the file system (major mismatch): this one is the negotiation
+       [r |-> ServerInit(c2).r, t |-> ServerInit(c2).t, want |-> FsInit(c2, CapableOf(c2)).want, called |-> TRUE]
   ELSE LET cap1 == CapableOf(c1)  cap2 == CapableOf(c2) IN
     CASE c1.stack = "scripted" -> [r |-> ReplyFrom(c2, c1.want), t |-> NoSw, want |-> c1.want, called |-> TRUE]
       [] c1.stack \in {"pt", "ovl"} ->
@@ -166,7 +168,10 @@ K2(c, how) ==
       hi == IF c.stack = "scripted" THEN HighBits ELSE {"PERFILE_DAX"}
       allow == IF c.minor = "m4" THEN {} ELSE IF c.minor = "m22" THEN lo \cap Old22 ELSE lo
       allow2 == IF c.minor = "m33" THEN hi ELSE {}
-  IN CASE how = "same" -> c
+  IN IF c.major = "gt" THEN [c EXCEPT !.major = "eq", !.flags = IF how \in {"full", "compl"} THEN allow ELSE {},
+                                      !.flags2 = IF how \in {"full", "compl"} THEN allow2 ELSE {}, !.ext = (how \in {"full", "compl"} /\ c.minor = "m33")]
+     ELSE
+     CASE how = "same" -> c
        [] how = "none" -> [c EXCEPT !.flags = {}, !.flags2 = {}, !.ext = FALSE]
        [] how = "full" -> [c EXCEPT !.flags = allow, !.flags2 = allow2, !.ext = (c.minor = "m33")]
        [] OTHER -> [c EXCEPT !.flags = allow \ c.flags, !.flags2 = allow2 \ c.flags2, !.ext = (c.minor = "m33")]
